@@ -29,6 +29,9 @@ def _sig_late(seg, impl, ver, k):
 CFG = PropCfg(
     "C09", "HopModel.Props.C09",
     [SuiteCfg("C09", signature=_sig, timeout=3000, parts_thorough=4,
+              # re-running a case in which the muxer wedged or died waits for watchdogs every time
+              should_shrink=lambda f: not any(o.split(" ")[0] in ("blocked", "wedged", "stuck", "panic", "dead", "died", "hung")
+                                              for o in f["impl"]),
               nontrivial=lambda ops, outs: any(o.startswith(("reap", "ccreate")) for o in ops),
               classify=lambda op, out: op.split(" ", 1)[0] + "->" + out.split(" ")[0][:6]),
      SuiteCfg("C09late", kind="monitor", signature=_sig_late, parts_thorough=1,
